@@ -1,0 +1,85 @@
+//go:build verif
+// +build verif
+
+package cursor
+
+import (
+	"sort"
+	"time"
+
+	"github.com/logrange/logrange/pkg/container"
+)
+
+// Hooks for the C15 correspondence check (verification build only): exported wrappers around the
+// unexported provider, nothing else. No existing behaviour is changed.
+
+// VC15Configure sets the ItFactory and the cache knobs of a provider made by NewProvider (Init is
+// not needed: the harness calls the sweeps itself).
+func VC15Configure(pr Provider, itf ItFactory, maxCurs int, idleTo, busyTo time.Duration) {
+	p := pr.(*provider)
+	p.Itf = itf
+	p.maxCurs = maxCurs
+	p.idleTo = idleTo
+	p.busyTo = busyTo
+}
+
+// VC15SweepByTime runs one sweepByTime pass the way the sweeper goroutine does (under p.lock)
+func VC15SweepByTime(pr Provider) {
+	p := pr.(*provider)
+	p.lock.Lock()
+	defer p.lock.Unlock()
+	p.sweepByTime()
+}
+
+// VC15SweepBySize runs one sweepBySize pass under p.lock
+func VC15SweepBySize(pr Provider) {
+	p := pr.(*provider)
+	p.lock.Lock()
+	defer p.lock.Unlock()
+	p.sweepBySize()
+}
+
+// VC15Advance moves the clock forward by d as far as the provider can tell: every expiration
+// time kept in the busy ring is moved d into the past
+func VC15Advance(pr Provider, d time.Duration) {
+	p := pr.(*provider)
+	p.lock.Lock()
+	defer p.lock.Unlock()
+	vc15walk(p.busy, func(ch *curHldr) { ch.expTime = ch.expTime.Add(-d) })
+}
+
+func vc15walk(head *container.CLElement, f func(ch *curHldr)) int {
+	n := head.Len()
+	e := head
+	for i := 0; i < n; i++ {
+		if ch, ok := e.Val.(*curHldr); ok {
+			f(ch)
+		}
+		e = e.Prev()
+	}
+	return n
+}
+
+// VC15CachedIds returns the keys of p.curs in increasing order
+func VC15CachedIds(pr Provider) []uint64 {
+	p := pr.(*provider)
+	p.lock.Lock()
+	defer p.lock.Unlock()
+	res := make([]uint64, 0, len(p.curs))
+	for id := range p.curs {
+		res = append(res, id)
+	}
+	sort.Slice(res, func(i, j int) bool { return res[i] < res[j] })
+	return res
+}
+
+// VC15Sizes returns len(p.curs), p.busy.Len(), p.free.Len(), p.freePoolSz
+func VC15Sizes(pr Provider) (int, int, int, int) {
+	p := pr.(*provider)
+	p.lock.Lock()
+	defer p.lock.Unlock()
+	return len(p.curs), p.busy.Len(), p.free.Len(), p.freePoolSz
+}
+
+// VC15IsEmptyCursor tells whether c is the shared empty cursor
+func VC15IsEmptyCursor(c Cursor) bool { return c == emptyCur }
